@@ -61,5 +61,18 @@ def shaniK : List UInt32 := [
   0xa2bfe8a1, 0xa81a664b, 0xc24b8b70, 0xc76c51a3, 0xd192e819, 0xd6990624, 0xf40e3585, 0x106aa070,
   0x19a4c116, 0x1e376c08, 0x2748774c, 0x34b0bcb5, 0x391c0cb3, 0x4ed8aa4a, 0x5b9cca4f, 0x682e6ff3,
   0x748f82ee, 0x78a5636f, 0x84c87814, 0x8cc70208, 0x90befffa, 0xa4506ceb, 0xbef9a3f7, 0xc67178f2]
+/-- `_mm_set_epi8(...)` of `be32dec_128`, as written (byte 15 first) -/
+def shaniBswapSel : List Nat := [12, 13, 14, 15, 8, 9, 10, 11, 4, 5, 6, 7, 0, 1, 2, 3]
+/-- immediates of the four `_mm_shuffle_epi32` (state in / state out) -/
+def shaniStateShuf : List Nat := [27, 27, 27, 27]
+/-- `RND4`: order of `K` in `IMM4`, then (dst, src1, src2) of the first `rnds2`, the `srli_si128` bytes, (dst, src1, src2) of the second -/
+def shaniRnd4 : List Nat := [3, 2, 1, 0, 1, 1, 0, 8, 0, 0, 1]
+/-- `MSG4(W, i)` of sha256_shani.c: the offsets `k` in `W[(i + k) % 4]` in textual order, with the `alignr` byte count -/
+def shaniMsg4 : List Nat := [0, 0, 1, 0, 0, 3, 2, 4, 0, 0, 3]
+/-- `RNDMSG`: `if (i < a) MSG4(W, i + b)` -/
+def shaniRndMsg : List Nat := [12, 4]
+/-- the straight-line parts of `SHA256_Transform_shani` (state load / shuffle / unpack, block loads, final add / unpack /
+    shuffle / store) have the shape `Model.CpuPaths.transformShani` follows -/
+def shaniShapeRecognised : Bool := true
 
 end Percival.Gen.CpuPaths
